@@ -751,5 +751,5 @@ _describe_base = describe
 
 def describe(tier):     # noqa: F811 - the base description plus what later rounds added to the space
     d = _describe_base(tier)
-    d["rule"] = d["rule"] + " " + "In every traditional state plot_pre_and_post_rejection is also run on an object whose mean_curve raises once (RuntimeError, KeyboardInterrupt): the object must be unchanged. The meshes handed to Axes.contourf / Axes3D.plot_surface are recorded and judged (for every azimuth of the object a row at that azimuth carrying that azimuth's mean curve); one root stores the azimuths as [90, 0, 45]; one root swaps which window of azimuth 0 is rejected between two drawings of the same live object."
+    d["rule"] = d["rule"] + " " + "In every traditional state plot_pre_and_post_rejection is also run on an object whose mean_curve raises once (RuntimeError, KeyboardInterrupt): the object must be unchanged. The meshes handed to Axes.contourf / Axes3D.plot_surface are recorded and judged (for every azimuth of the object a row at that azimuth carrying that azimuth's mean curve); one root stores the azimuths as [90, 0, 45]; one root swaps which window of azimuth 0 is rejected between two drawings of the same live object. Further roots: one accepted window 30 times stronger than the others (traditional and azimuthal), three two-peak windows (range updates with peak options are in the menu). In every traditional state recordings with two nan samples are drawn (they must stay unchanged); the azimuthal summary is drawn for all four (distribution_mc, distribution_fn) pairs."
     return d
